@@ -5,10 +5,13 @@
 //!   * writes the program files of class (pk,pn,why,std), variant v, into <scratch>/<idx>/ and prepares FILE,
 //!   * runs `sylt <argv>` there with a `lua` shim first on PATH (the shim stores the chunk and lua's stderr, then
 //!     delegates to the real interpreter), with stdout/stderr redirected to files and a timeout,
-//!   * compiles the same files from memory through the library API (vharness::project::compile_opts) and runs
-//!     the reference Lua in minilua: the reference error list / program bytes / run output,
-//!   * records raw facts only (exit code, lengths, digests, common-prefix lengths, rendered error headings,
-//!     `require` occurrences): the classes and every verdict are derived by TLC in Trace_Driver.
+//!   * compiles the same files (same relative paths, served from memory) through the library API
+//!     `sylt::compile_with_reader_to_writer` and runs the reference Lua in minilua: the reference error list and
+//!     its rendering / program bytes / run output - always a second output of the *current* compiler,
+//!   * records raw facts only (exit code, lengths, digests, common-prefix lengths, error blocks = lines naming
+//!     `<source file>:<line>`, `require` occurrences): the classes and every verdict are derived by TLC in Trace_Driver.
+//! A case may carry `"stub": "<kind>"` (negative controls): the world the command left behind is then changed the
+//! way a defective driver would have left it (see `apply_stub`) before the facts are taken.
 
 use rand::seq::SliceRandom;
 use rand::{Rng, SeedableRng};
@@ -17,7 +20,7 @@ use std::collections::BTreeMap;
 use std::path::{Path, PathBuf};
 use std::process::{Command, Stdio};
 use vharness::luarun;
-use vharness::project::{compile_opts, prelude_len, CompileOpts, CompileResult, Project};
+use vharness::project::{compile_opts, err_info, prelude_len, quiet_panics, CompileOpts, ErrInfo, Project};
 use vharness::util::*;
 
 const MODULE: &str = "c20mod";
@@ -211,7 +214,9 @@ fn argv(cfg: &Value, spell: u64, idx: u64) -> (Vec<String>, String) {
     }
     let mut module = String::new();
     if req {
-        let m = if spell != 0 && rng.gen_bool(0.5) { format!("{}.lua", MODULE) } else { MODULE.to_string() };
+        // (M is always spelled without a `.lua` suffix: what `--require M.lua` should emit is not part of the property)
+        let _ = rng.gen_bool(0.5);
+        let m = MODULE.to_string();
         module = m.clone();
         let g = match if spell == 0 { 0 } else { rng.gen_range(0..4) } {
             0 => vec!["--require".to_string(), m],
@@ -268,22 +273,21 @@ fn strip_ansi(s: &str) -> String {
     out
 }
 
-const HEADINGS: &[(&str, &str)] = &[
-    ("syntax error: ", "syntax"),
-    ("typecheck error: ", "type"),
-    ("compile error: ", "compile"),
-    ("git conflict error: ", "git_conflict"),
-];
-
-/// The rendered error blocks of a text: one per heading line `<kind> error: <file>:<line>`.
-fn blocks(text: &str) -> Vec<Value> {
+/// The error blocks of a text, wording-free: one per line that ends in `<file>:<line>` where <file> is one of the
+/// project's source files (as the command was given them) and is not glued to a longer name.
+fn blocks(text: &str, names: &[String]) -> Vec<Value> {
     let mut out = Vec::new();
     for line in strip_ansi(text).lines() {
-        for (h, kind) in HEADINGS {
-            if let Some(rest) = line.strip_prefix(h) {
-                if let Some((file, ln)) = rest.rsplit_once(':') {
-                    if let Ok(n) = ln.trim().parse::<u64>() {
-                        out.push(json!({"kind": kind, "file": file, "line": n}));
+        let line = line.trim_end();
+        for name in names {
+            let pat = format!("{}:", name);
+            if let Some(at) = line.rfind(&pat) {
+                let digits = &line[at + pat.len()..];
+                let before_ok = line[..at].chars().last().map(|c| !(c.is_alphanumeric() || c == '_' || c == '-' || c == '.')).unwrap_or(true);
+                if before_ok && !digits.is_empty() && digits.chars().all(|c| c.is_ascii_digit()) {
+                    if let Ok(n) = digits.parse::<u64>() {
+                        out.push(json!({"file": name, "line": n}));
+                        break;
                     }
                 }
             }
@@ -386,7 +390,7 @@ fn run_facts(text: &str) -> Value {
 /// Facts about an emitted program, wherever it went (chunk given to lua, stdout, FILE).
 fn emit_facts(bytes: &[u8], preamble: &str, wher: &str) -> Value {
     let none = json!({"present": false, "where": wher, "len": bytes.len(), "digest": digest(bytes), "pre_ok": false,
-                      "pre_digest": "", "n_req": 0, "n_req_pre": 0, "req_at": -1, "req_glued": false,
+                      "pre_digest": "", "n_req": 0, "n_req_pre": 0, "req_at": -1, "req_lead_blank": false,
                       "wo_req_digest": "", "run": {"status": "none", "out_len": 0, "out_digest": "", "requires": []}});
     if !bytes.starts_with(PRE_BEGIN.as_bytes()) {
         return none;
@@ -395,12 +399,15 @@ fn emit_facts(bytes: &[u8], preamble: &str, wher: &str) -> Value {
     let pl = prelude_len(&text);
     let (pre, body) = text.split_at(pl);
     let sites = require_sites(body);
-    let (req_at, glued, wo) = match sites.first() {
+    // the program without its (first) require statement: the site, an optional `;` and an optional line end are cut
+    let (req_at, lead_blank, wo) = match sites.first() {
         Some((s, e)) => {
+            let lead = &body[..*s];
+            let lead_blank = lead.chars().all(|c| c.is_whitespace());
             let rest = &body[*e..];
-            let glued = !(rest.is_empty() || rest.starts_with('\n') || rest.starts_with(';') || rest.starts_with(' '));
+            let rest = rest.strip_prefix(';').unwrap_or(rest);
             let rest = rest.strip_prefix('\n').unwrap_or(rest);
-            (*s as i64, glued, format!("{}{}{}", pre, &body[..*s], rest))
+            (*s as i64, lead_blank, format!("{}{}{}", pre, lead, rest))
         }
         None => (-1, false, text.clone()),
     };
@@ -408,13 +415,13 @@ fn emit_facts(bytes: &[u8], preamble: &str, wher: &str) -> Value {
     run.as_object_mut().unwrap().remove("out");
     json!({"present": true, "where": wher, "len": bytes.len(), "digest": digest(bytes),
            "pre_ok": pl > 0 && pre == preamble, "pre_digest": digest(pre.as_bytes()),
-           "n_req": sites.len(), "n_req_pre": require_sites(pre).len(), "req_at": req_at, "req_glued": glued,
+           "n_req": sites.len(), "n_req_pre": require_sites(pre).len(), "req_at": req_at, "req_lead_blank": lead_blank,
            "wo_req_digest": digest(wo.as_bytes()), "run": run})
 }
 
 // ------------------------------------------------------------------------------------------- one configuration
 
-const SHIM: &str = "#!/bin/sh\n: > \"$C20_STARTED\"\ncat > \"$C20_CHUNK\"\n\"$C20_LUA\" \"$C20_CHUNK\" 2> \"$C20_LUAERR\"\nrc=$?\ncat \"$C20_LUAERR\" >&2\n: > \"$C20_DONE\"\nexit $rc\n";
+const SHIM: &str = "#!/bin/sh\n: > \"$C20_STARTED\"\nif [ $# -gt 0 ] && [ -f \"$1\" ]; then cat \"$1\" > \"$C20_CHUNK\"; else cat > \"$C20_CHUNK\"; fi\n\"$C20_LUA\" \"$C20_CHUNK\" 2> \"$C20_LUAERR\"\nrc=$?\ncat \"$C20_LUAERR\" >&2\n: > \"$C20_DONE\"\nexit $rc\n";
 
 fn old_content(idx: u64) -> String {
     // sometimes shorter, sometimes longer than an emitted program
@@ -437,6 +444,152 @@ fn wait_for(p: &Path, ms: u64) -> bool {
     p.exists()
 }
 
+/// The reference: the same files under the same relative paths, served from memory to the library API.
+/// ("ok", lua) | ("err", errors) | ("panic")
+enum Reference {
+    Ok(String),
+    Err(Vec<ErrInfo>),
+    Panic,
+}
+
+fn reference(files: &BTreeMap<String, String>, nostd: bool, require: Option<String>) -> Reference {
+    quiet_panics();
+    let args = sylt::Args { args: vec!["main.sy".to_string()], no_std: nostd, require, ..Default::default() };
+    let mut out: Vec<u8> = Vec::new();
+    let res = {
+        let reader = |p: &Path| -> Result<String, sylt_common::error::Error> {
+            let key = p.to_string_lossy().to_string();
+            let key = key.strip_prefix("./").unwrap_or(&key).to_string();
+            files.get(&key).cloned().ok_or_else(|| sylt_common::error::Error::FileNotFound(p.to_path_buf()))
+        };
+        let w: &mut dyn std::io::Write = &mut out;
+        std::panic::catch_unwind(std::panic::AssertUnwindSafe(|| sylt::compile_with_reader_to_writer(&args, reader, w)))
+    };
+    match res {
+        Ok(Ok(())) => Reference::Ok(String::from_utf8_lossy(&out).to_string()),
+        Ok(Err(errs)) => Reference::Err(errs.iter().map(err_info).collect()),
+        Err(_) => Reference::Panic,
+    }
+}
+
+/// Negative controls: change the world the command left behind the way a defective driver would have left it.
+/// Returns whether the stub's precondition held (the check requires it to).
+#[allow(clippy::too_many_arguments)]
+fn apply_stub(
+    kind: &str,
+    mode: &str,
+    exit: &mut i64,
+    so: &mut Vec<u8>,
+    se: &mut Vec<u8>,
+    target: &Path,
+    preamble: &str,
+    names: &[String],
+) -> bool {
+    let site = format!("require \"{}\"", MODULE);
+    // the emitted program lives in FILE or on stdout (the chunk of run mode has been executed already)
+    let edit_emitted = |f: &dyn Fn(&str) -> Option<String>, so: &mut Vec<u8>| -> bool {
+        let cur = match mode {
+            "file" => std::fs::read(target).unwrap_or_default(),
+            "stdout" => so.clone(),
+            _ => return false,
+        };
+        let text = String::from_utf8_lossy(&cur).to_string();
+        if !text.starts_with(PRE_BEGIN) {
+            return false;
+        }
+        match f(&text) {
+            Some(new) => {
+                if mode == "file" {
+                    std::fs::write(target, new).unwrap();
+                } else {
+                    *so = new.into_bytes();
+                }
+                true
+            }
+            None => false,
+        }
+    };
+    match kind {
+        // exit status
+        "exit0" => {
+            let ok = *exit != 0;
+            *exit = 0;
+            ok
+        }
+        "exit1" => {
+            let ok = *exit == 0;
+            *exit = 1;
+            ok
+        }
+        // errors
+        "silent" => {
+            let ok = !blocks(&String::from_utf8_lossy(so), names).is_empty() || !se.is_empty();
+            so.clear();
+            se.clear();
+            ok
+        }
+        "first-only" | "twice" => {
+            let text = String::from_utf8_lossy(so).to_string();
+            let plain = strip_ansi(&text);
+            let heads: Vec<usize> = {
+                // byte offsets (in the ANSI-free text) of the lines that are block headings
+                let mut offs = Vec::new();
+                let mut at = 0;
+                for line in plain.split_inclusive('\n') {
+                    if !blocks(line, names).is_empty() {
+                        offs.push(at);
+                    }
+                    at += line.len();
+                }
+                offs
+            };
+            if kind == "twice" {
+                if heads.is_empty() {
+                    return false;
+                }
+                *so = format!("{}{}", plain, plain).into_bytes();
+                true
+            } else {
+                if heads.len() < 2 {
+                    return false;
+                }
+                *so = plain[..heads[1]].as_bytes().to_vec();
+                true
+            }
+        }
+        // -o FILE
+        "partial-file" => {
+            if mode != "file" || *exit == 0 {
+                return false;
+            }
+            std::fs::write(target, &preamble.as_bytes()[..preamble.len() / 2]).is_ok()
+        }
+        "truncate-file" => {
+            if mode != "file" || *exit == 0 || !target.is_file() {
+                return false;
+            }
+            std::fs::write(target, b"").is_ok()
+        }
+        "short-file" => edit_emitted(&|t: &str| if mode == "file" { Some(t[..t.len() - 1].to_string()) } else { None }, so),
+        // -o -
+        "newline" => edit_emitted(&|t: &str| if mode == "stdout" { Some(format!("{}\n", t)) } else { None }, so),
+        // --require
+        "req2" => edit_emitted(&|t: &str| t.find(&site).map(|i| format!("{}{}\n{}", &t[..i], site, &t[i..])), so),
+        "req0" => edit_emitted(&|t: &str| t.find(&site).map(|i| format!("{}{}", &t[..i], &t[i + site.len()..])), so),
+        "req-late" => edit_emitted(&|t: &str| t.find(&site).map(|i| format!("{}{}\n{}\n", &t[..i], &t[i + site.len()..], site)), so),
+        "req-other" => edit_emitted(&|t: &str| t.find(&site).map(|i| format!("{}require \"c20other\"{}", &t[..i], &t[i + site.len()..])), so),
+        // --no-std: the emitted program behaves differently
+        "nostd" => edit_emitted(&|t: &str| Some(format!("{}\nprint(\"c20 --no-std\")\n", t)), so),
+        // run mode: the program was never executed
+        "run-skip" => {
+            let ok = mode == "run" && !so.is_empty();
+            so.clear();
+            ok
+        }
+        _ => tool_error(&format!("unknown stub {}", kind)),
+    }
+}
+
 fn run_case(case: &Value, sylt: &str, lua: &str, scratch: &Path, shimdir: &Path, preamble: &str) -> Value {
     let idx = case["idx"].as_u64().unwrap();
     let cfg = &case["cfg"];
@@ -445,22 +598,26 @@ fn run_case(case: &Value, sylt: &str, lua: &str, scratch: &Path, shimdir: &Path,
     let (std_, nostd, req) = (cfg["std"].as_bool().unwrap(), cfg["nostd"].as_bool().unwrap(), cfg["req"].as_bool().unwrap());
     let v = case["v"].as_u64().unwrap();
     let spell = case["spell"].as_u64().unwrap();
+    let stub = case["stub"].as_str().unwrap_or("").to_string();
     let files = program(pk, pn, why, std_, v);
+    let names: Vec<String> = files.keys().cloned().collect();
     let (args, module) = argv(cfg, spell, idx);
 
     // the reference: the same files, compiled from memory through the library API, and run in minilua
-    let project = Project { files: files.clone(), main: "main.sy".into() };
-    let opts = CompileOpts { no_std: nostd, require: if req { Some(module.clone()) } else { None } };
-    let (res, _) = compile_opts(&project, &opts);
-    let (ref_class, ref_lua, ref_errors, ref_run) = match &res {
-        CompileResult::Ok { lua } => ("ok", lua.clone(), vec![], run_facts(lua)),
-        CompileResult::Err { errors, .. } => (
-            "err",
-            String::new(),
-            errors.iter().map(|e| json!({"kind": e.kind, "file": e.file, "line": e.line})).collect::<Vec<_>>(),
-            json!({"status": "none", "out_len": 0, "out_digest": "", "requires": [], "out": ""}),
-        ),
-        CompileResult::Panic { .. } => ("panic", String::new(), vec![], json!({"status": "none", "out_len": 0, "out_digest": "", "requires": [], "out": ""})),
+    let no_run = || json!({"status": "none", "out_len": 0, "out_digest": "", "requires": [], "out": ""});
+    let (ref_class, ref_lua, ref_errors, ref_blocks, ref_run) = match reference(&files, nostd, if req { Some(module.clone()) } else { None }) {
+        Reference::Ok(lua) => {
+            let run = run_facts(&lua);
+            ("ok", lua, vec![], vec![], run)
+        }
+        Reference::Err(errors) => {
+            let mut bl = Vec::new();
+            for e in errors.iter() {
+                bl.extend(blocks(&e.rendered, &names));
+            }
+            ("err", String::new(), errors.iter().map(|e| json!({"kind": e.kind, "file": e.file, "line": e.line})).collect::<Vec<_>>(), bl, no_run())
+        }
+        Reference::Panic => ("panic", String::new(), vec![], vec![], no_run()),
     };
     let ref_out = ref_run["out"].as_str().unwrap_or("").to_string();
     let lua_like: &[u8] = if ref_class == "ok" { ref_lua.as_bytes() } else { preamble.as_bytes() };
@@ -518,7 +675,7 @@ fn run_case(case: &Value, sylt: &str, lua: &str, scratch: &Path, shimdir: &Path,
         .stderr(std::fs::File::create(&se_p).unwrap());
     let mut child = cmd.spawn().unwrap_or_else(|e| tool_error(&format!("cannot start {}: {}", sylt, e)));
     let t0 = std::time::Instant::now();
-    let (exit, timed_out) = loop {
+    let (mut exit, timed_out) = loop {
         match child.try_wait().unwrap() {
             Some(st) => break (st.code().map(|c| c as i64).unwrap_or(-1), false),
             None if t0.elapsed().as_secs() > 60 => {
@@ -529,13 +686,14 @@ fn run_case(case: &Value, sylt: &str, lua: &str, scratch: &Path, shimdir: &Path,
             None => std::thread::sleep(std::time::Duration::from_millis(1)),
         }
     };
-    // sylt does not wait for the child when compilation fails: let the shim finish before looking
-    let lua_started = if mode == "run" { wait_for(&done_p, 5000) || started_p.exists() } else { started_p.exists() };
+    // sylt does not wait for the child when compilation fails: give an orphaned shim a moment to show up, then let it finish
+    let lua_started = started_p.exists() || (mode == "run" && wait_for(&started_p, 400));
     if lua_started {
         wait_for(&done_p, 5000);
     }
-    let so = std::fs::read(&so_p).unwrap_or_default();
-    let se = std::fs::read(&se_p).unwrap_or_default();
+    let mut so = std::fs::read(&so_p).unwrap_or_default();
+    let mut se = std::fs::read(&se_p).unwrap_or_default();
+    let stub_applied = if stub.is_empty() { false } else { apply_stub(&stub, mode, &mut exit, &mut so, &mut se, &target, preamble, &names) };
     let so_text = String::from_utf8_lossy(&so).to_string();
     let se_text = String::from_utf8_lossy(&se).to_string();
     let chunk = std::fs::read(&chunk_p).unwrap_or_default();
@@ -554,20 +712,29 @@ fn run_case(case: &Value, sylt: &str, lua: &str, scratch: &Path, shimdir: &Path,
     let file_bytes = if mode == "file" && after["k"] == "file" { std::fs::read(&target).unwrap_or_default() } else { vec![] };
     let emit = if mode == "file" { emit_facts(&file_bytes, preamble, "file") } else { emit_facts(emitted.0, preamble, emitted.1) };
 
+    // error blocks wherever the command printed them
+    let mut all_blocks = blocks(&so_text, &names);
+    all_blocks.extend(blocks(&se_text, &names));
+    let has_out = ref_out.is_empty() || so_text.contains(&ref_out);
     let lua_msg_printed = !luaerr.is_empty() && (so_text.contains(&luaerr) || se_text.contains(&luaerr));
+    if std::env::var("C20_KEEP").is_err() {
+        // everything needed is in the record (sources, argv, facts); C20_KEEP=1 keeps the scratch directories
+        let _ = std::fs::remove_dir_all(&dir);
+    }
     json!({
         "idx": idx, "base": case["base"], "v": v, "spell": spell, "cfg": cfg, "argv": args, "module": module,
+        "stub": stub, "stub_applied": stub_applied,
         "files": files, "exit": exit, "timed_out": timed_out,
         "se": {"len": se.len(), "panic": se_text.contains("panicked at"), "summary": se_text.starts_with("Error: "),
                "text": se_text.chars().take(400).collect::<String>()},
-        "so": {"len": so.len(), "digest": digest(&so), "lcp_lua": lcp(&so, lua_like), "lcp_out": lcp(&so, ref_out.as_bytes()),
+        "so": {"len": so.len(), "digest": digest(&so), "lcp_lua": lcp(&so, lua_like), "lcp_out": lcp(&so, ref_out.as_bytes()), "has_out": has_out,
                "markers": count_sub(&so_text, "-- End Sylt preamble"), "head": strip_ansi(&so_text).chars().take(300).collect::<String>()},
-        "blocks": blocks(&so_text), "se_blocks": blocks(&se_text),
+        "blocks": all_blocks,
         "lua": {"started": lua_started, "chunk_len": chunk.len(), "chunk_digest": digest(&chunk),
                 "chunk_lcp": lcp(&chunk, lua_like), "err_len": luaerr.len(), "msg_printed": lua_msg_printed},
         "before": before, "after": after, "extra_files": extra.len(), "sources_intact": sources_intact,
         "ref": {"class": ref_class, "lua_len": ref_lua.len(), "lua_digest": digest(ref_lua.as_bytes()),
-                "errors": ref_errors, "run": {"status": ref_run["status"], "out_len": ref_run["out_len"],
+                "errors": ref_errors, "blocks": ref_blocks, "run": {"status": ref_run["status"], "out_len": ref_run["out_len"],
                 "out_digest": ref_run["out_digest"], "requires": ref_run["requires"]}},
         "emit": emit,
     })
@@ -583,6 +750,13 @@ fn main() {
     for b in [&sylt, &lua] {
         if !Path::new(b).is_file() {
             tool_error(&format!("{} does not exist", b));
+        }
+    }
+    {
+        // "/dev/full" must be the character device that fails every write (else `-o /dev/full` would create a file there)
+        use std::os::unix::fs::FileTypeExt;
+        if !std::fs::metadata("/dev/full").map(|m| m.file_type().is_char_device()).unwrap_or(false) {
+            tool_error("/dev/full is not a character device in this sandbox");
         }
     }
     let scratch = PathBuf::from(&args[5]);
